@@ -50,7 +50,7 @@ CHECKS = {
     "C12": ("exploration",
             "property-based testing (Hypothesis): cycle-accurate reference register file (written from the docstrings) compared in every cycle with the real CSRBank over generated register sets and bus/device histories",
             "Generated register sets (raw CSRs, storages with/without atomic write and device write, statuses incl. writable, fields with offsets/gaps/pulse/reset, 1..>2 bus words), bus width 8/32, big/little ordering, bank address, paging; histories of bus writes/reads (this bank, other bank, beyond the last register, aliases of the word index), full accessor sequences, idle cycles and device-side updates. The model predicts dat_r, every storage, every re/we strobe, every field value in every cycle; any difference is a violation.",
-            "Trusted: Migen's simulator; the model. Atomic writes in both orderings (little ordering repaired, witness replayed). csr_bus.SRAM windows and CSRBankArray are exercised by C14, not here.",
+            "Trusted: Migen's simulator; the model. Atomic writes in both orderings (little ordering repaired, witness replayed). csr_bus.SRAM windows (memories 1 bit .. 8 bus words wide, paging, read-only forms, sub-word staging, device ports) and CSRBankArray with the gatherer, fixed locations, address_map and Interconnect / InterconnectShared (1-2 masters) are covered by the sub-checks `sram` and `bankarray` (checks/c12_sram.py): a placement model written from the documented rules plus per-cycle comparison of every master's dat_r, every storage, every strobe of all banks and the watched memory locations.",
             "DESIGN.md section 4 / C12"),
     "C15": ("exploration",
             "property-based testing (Hypothesis) + exhaustive alignment sweep: cycle-accurate pending/irq model vs the real EventManager behind a real CSRBank",
@@ -65,7 +65,7 @@ CHECKS = {
     "C09": ("exploration",
             "property-based testing (Hypothesis): flat byte-memory scoreboard + hold/stability monitors with an independent-channel AXI-Lite master agent and a multi-accept memory slave agent over generated histories and channel schedules",
             "DUTs: AXILiteSRAM, AXILite2Wishbone, Wishbone2AXILite, AXILite2CSR, AXILiteDownConverter/UpConverter/Converter (ratios 2/4/8, widths 8..128), base-address offsets, word/byte Wishbone addressing. The master agent drives the five channels from independent generated schedules (AW/W skew incl. W first, up to K outstanding per direction, B/R back-pressure, garbage on idle channels) and serialises only dependent operations; the slave agent pre-asserts or withholds ready, queues up to Q requests, answers in order with schedule-driven latency and SLVERR ranges. Oracle: every read equals the flat memory, slave memory equals the model at the end, one response per request, errors propagate where the bridge has an error path, every valid/payload the DUT drives is held until ready (both sides), Wishbone requests stable until ack.",
-            "Trusted: Migen's simulator, harness agents. Known findings excluded by construction and replayed: AXILiteUpConverter lane selection with two reads in flight / W before AW. AXI4-full bridges (AXI2AXILite, AXILite2AXI, AXI2Wishbone, Wishbone2AXI) and AHB2Wishbone are not yet covered by this check.",
+            "Trusted: Migen's simulator, harness agents. Known findings excluded by construction and replayed: AXILiteUpConverter lane selection with two reads in flight / W before AW. AXI4 bridges (AXI2AXILite, AXILite2AXI, AXI2Wishbone, Wishbone2AXI), AHB2Wishbone (own AHB master agent) and every adapter chain SoCBusHandler.add_adapter builds (enumerated over standards x widths x addressing, plus generated programs) are covered by six further sub-checks (checks/c09_full.py); six recorded defect classes of AXI2AXILite / AXILite2AXI / AHB2Wishbone / add_adapter are excluded by construction and replayed from witnesses; AHB SEQ/BUSY transfers are not generated (the bridge ignores them), no error ranges behind AXILite2Wishbone (it has no error path).",
             "DESIGN.md section 4 / C09"),
     "C08": ("exploration",
             "property-based testing (Hypothesis): routing / exactly-once / in-order oracle from five-channel handshake logs plus per-slave memory scoreboards, with independent-channel master agents and multi-accept slave agents",
